@@ -13,6 +13,7 @@
 From Coq Require Import ZArith Floats List QArith Qreals Reals.
 From Flocq Require Core BinarySingleNaN.
 From SID Require Import Base F64 ExactRef MercatorR18 Project.
+From SID Require GridTie18 PtMerc XF.
 Import ListNotations.
 Open Scope R_scope.
 
@@ -41,18 +42,34 @@ Theorem C18_grid_is_epsg3857 : forall lon phi,
   xfrac lon = (1 + merc_x (rad lon) / (PI * Rearth)) / 2 /\ mfrac phi = (1 - merc_y phi / (PI * Rearth)) / 2.
 Proof. exact grid_is_epsg3857. Qed.
 Print Assumptions C18_grid_is_epsg3857.
+(* the same on C01's OWN objects (PtMerc.wfrac of a latitude in degrees, XF.ufrac with its fold of longitude 180 onto -180): the
+   statement above is about private copies `mfrac`/`xfrac` of MercatorR18.v; `xfrac 180 = 1` whereas C01 folds 180 onto column 0 *)
+Theorem C18_grid_of_C01_is_epsg3857 : forall lon lat,
+  PtMerc.wfrac lat = (1 - merc_y (rad lat) / (PI * Rearth)) / 2 /\
+  XF.ufrac lon = (1 + merc_x (rad (XF.lon_fold lon)) / (PI * Rearth)) / 2 /\
+  (lon <> 180 -> XF.lon_fold lon = lon) /\ XF.lon_fold 180 = -180.
+Proof. exact GridTie18.grid_of_C01_is_epsg3857. Qed.
+Print Assumptions C18_grid_of_C01_is_epsg3857.
+(* C01's exact row / column are the floors of the scaled EPSG:3857 coordinates *)
+Theorem C18_grid_indices_of_C01 : forall h lon lat,
+  PtMerc.Y_exact h lat = Raux.Zfloor (Raux.bpow Zaux.radix2 h * ((1 - merc_y (rad lat) / (PI * Rearth)) / 2)) /\
+  XF.X_exact h lon = Raux.Zfloor (Raux.bpow Zaux.radix2 h * ((1 + merc_x (rad (XF.lon_fold lon)) / (PI * Rearth)) / 2)).
+Proof. exact GridTie18.grid_indices_of_C01. Qed.
+Print Assumptions C18_grid_indices_of_C01.
 
-(* the formulas of wgs84 v1.1.7 (webMercator.FromLonLat / ToLonLat, read from its source, in degrees) are these functions ... *)
-Theorem C18_library_formulas_are_the_projection : forall lon lat east north, -90 < lat < 90 ->
+(* the formulas of ONE STAGE of the library path - webMercator.FromLonLat / ToLonLat of wgs84 v1.1.7, transcribed by hand from its
+   source, in degrees - are these functions. The detour through geocentric coordinates that every call of the library also takes
+   (lonLatToXYZ / xyzToLonLat: the source of finding alt_fed_to_datum) is NOT part of this transcription ... *)
+Theorem C18_webmercator_stage_is_the_projection : forall lon lat east north, -90 < lat < 90 ->
   lib_east lon = merc_x (rad lon) /\ lib_north lat = merc_y (rad lat) /\
   lib_lon east = deg (merc_lon east) /\ lib_lat north = deg (merc_lat north).
 Proof. exact library_formulas. Qed.
-Print Assumptions C18_library_formulas_are_the_projection.
-(* ... hence in exact arithmetic they return every longitude and every latitude in (-90, 90) unchanged *)
-Theorem C18_library_round_trip_exact : forall lon lat, -90 < lat < 90 ->
+Print Assumptions C18_webmercator_stage_is_the_projection.
+(* ... hence in exact arithmetic that stage alone returns every longitude and every latitude in (-90, 90) unchanged *)
+Theorem C18_webmercator_stage_round_trip_exact : forall lon lat, -90 < lat < 90 ->
   lib_lon (lib_east lon) = lon /\ lib_lat (lib_north lat) = lat.
 Proof. exact round_trip_in_degrees. Qed.
-Print Assumptions C18_library_round_trip_exact.
+Print Assumptions C18_webmercator_stage_round_trip_exact.
 
 (* the latitude limit 85.0511287798 of object.Point is the edge of the projected square (to 1e-5 m) and lies in the first / last row
    of the grid at the finest zoom *)
@@ -150,16 +167,20 @@ Print Assumptions C18_unknown_epsg_is_conversion_error.
 Example C18_regression_lat_limit_overshoot_now_error :
   round_trip epsg_known tr_d18 [p_d18] orth_crs = (([q_d18], None), ([], Some EValueConvert)).
 Proof. exact lat_limit_overshoot_now_error. Qed.
+Print Assumptions C18_regression_lat_limit_overshoot_now_error.
 Example C18_HISTORICAL_lat_limit_overshoot_before_dbefda0 :
   to_geographic_old tr_d18 [q_d18] orth_crs = ([ {| plon := 139; plat := 0; palt := 0 |} ], None).
 Proof. exact lat_limit_overshoot_historical. Qed.
+Print Assumptions C18_HISTORICAL_lat_limit_overshoot_before_dbefda0.
 Example C18_regression_unknown_epsg_empty_list_now_error :
   epsg_known 99999 = false /\
   forall tr, to_projected epsg_known tr [] 99999 = ([], Some EValueConvert) /\ to_geographic epsg_known tr [] 99999 = ([], Some EValueConvert).
 Proof. exact unknown_epsg_empty_list_now_error. Qed.
+Print Assumptions C18_regression_unknown_epsg_empty_list_now_error.
 Example C18_HISTORICAL_unknown_epsg_empty_list_before_e07a6eb :
   forall tr crs, to_projected_old tr [] crs = ([], None) /\ to_geographic_old tr [] crs = ([], None).
 Proof. exact unknown_epsg_empty_list_historical. Qed.
+Print Assumptions C18_HISTORICAL_unknown_epsg_empty_list_before_e07a6eb.
 
 (* ---------------- the run-time checkers decide what they claim ---------------- *)
 
@@ -179,15 +200,18 @@ Theorem C18_checker_easting_complete : forall x lon X L, fq x = Some X -> fq lon
 Proof. exact check_x_complete. Qed.
 Print Assumptions C18_checker_easting_complete.
 
-(* northing: compared (<= 9e-7 m) with a float reference; whenever that reference is within 1e-7 m of R*asinh(tan phi) - certified per
-   sample by the certificate step - acceptance means |y - R*asinh(tan phi)| <= 1e-6 m *)
-Theorem C18_checker_northing_sound : forall y yr, fclose y yr tol_ref = true ->
+(* northing: the checker compares y (<= 9e-7 m) with a FLOAT reference yr. This theorem is only the triangle inequality: IF that
+   reference is within 1e-7 m of R*asinh(tan phi) THEN acceptance means |y - R*asinh(tan phi)| <= 1e-6 m. Partial: nothing here ties yr
+   to the latitude or proves the premise; the premise is certified (CoqInterval) per sample by the certificate step for points drawn
+   from the same generator as the judged cases, not for the judged cases themselves. No completeness statement for the northing. *)
+Theorem C18_checker_northing_sound_partial : forall y yr, fclose y yr tol_ref = true ->
   exists Y YR, fq y = Some Y /\ fq yr = Some YR /\
     forall phi, Rabs (Q2R YR - merc_y phi) <= 1 / 10000000 -> Rabs (Q2R Y - merc_y phi) <= 1 / 1000000.
 Proof. exact check_y_sound. Qed.
-Print Assumptions C18_checker_northing_sound.
+Print Assumptions C18_checker_northing_sound_partial.
 
-(* round trip of one point accepted <=> longitude within 2e-10 degrees on the circle (+-180 are the same meridian),
+(* round trip of one point accepted <=> longitude within 2e-10 degrees ON THE CIRCLE (the documented identification of +-180, DESIGN 5.3 (i):
+   the code returns 180 as -179.99999999999994 and -180 as +179.99999999999994, which this checker accepts),
    latitude within 2e-10 degrees, altitude bit-identical *)
 Theorem C18_checker_round_trip_spec : forall p g,
   check_back p g = true <->
@@ -196,12 +220,29 @@ Theorem C18_checker_round_trip_spec : forall p g,
   feqb_bits (palt g) (palt p) = true.
 Proof. exact check_back_spec. Qed.
 Print Assumptions C18_checker_round_trip_spec.
+(* the finding class alt_fed_to_datum excuses, inside -6e6 m <= alt <= 2^25 m, only this much: easting still within 1e-6 m, northing
+   within 9e-7 m + 1.8e-14 * alt^2 * (a/(a+alt))^3 m of the reference; latitude back within 2e-10 + 2.0e-19 * alt^2 * (a/(a+alt))^3
+   degrees, longitude still within 2e-10 degrees on the circle, altitude still identical (a = 6378137). The coefficients are measured
+   on the code (meta/C18.json), not derived; below -6e6 m (singular zone of the geocentric detour) the class claims no bound. *)
+Theorem C18_excuse_is_bounded : forall yref p q g,
+  (fwd_excused yref p q = true -> alt_zone_of (palt p) = ZIn ->
+   exists A X L Y YR, fq (palt p) = Some A /\ -6000000 <= Q2R A <= 33554432 /\
+     fq (px q) = Some X /\ fq (plon p) = Some L /\ Rabs (Q2R X - merc_x (rad (Q2R L))) <= 1 / 1000000 /\
+     fq (py q) = Some Y /\ fq (yref (plat p)) = Some YR /\
+     Rabs (Q2R Y - Q2R YR) <= 9 / 10000000 + 18 / 10 ^ 15 * (Q2R A * Q2R A * (6378137 / (6378137 + Q2R A)) ^ 3)) /\
+  (back_excused p g = true -> alt_zone_of (palt p) = ZIn ->
+   exists A B C, fq (palt p) = Some A /\ -6000000 <= Q2R A <= 33554432 /\ fq (plat g) = Some B /\ fq (plat p) = Some C /\
+     Rabs (Q2R B - Q2R C) <= 2 / 10 ^ 10 + 2 / 10 ^ 19 * (Q2R A * Q2R A * (6378137 / (6378137 + Q2R A)) ^ 3) /\
+     lon_close (plon g) (plon p) = true /\ palt g = palt p).
+Proof. exact excuse_is_bounded. Qed.
+Print Assumptions C18_excuse_is_bounded.
 Theorem C18_checker_bit_equality_is_equality : forall a b, feqb_bits a b = true -> a = b.
 Proof. exact feqb_bits_eq. Qed.
 Print Assumptions C18_checker_bit_equality_is_equality.
 
 (* ---------------- non-vacuity ---------------- *)
-(* finding alt_fed_to_datum (D17): observed on the code - (139, 35) at 1 000 000 m comes back 8.6e-8 degrees off and its northing is
+(* finding alt_fed_to_datum (D17): float literals RECORDED from a run of the code (nothing re-derives them at build time; the run-time
+   class count keeps the finding alive) - (139, 35) at 1 000 000 m comes back 8.6e-8 degrees off and its northing is
    5.8 mm from the one at height 0; the same point at height 0 passes *)
 Example C18_alt_fed_to_datum_witness :
   let p  := {| plon := 139; plat := 35; palt := 0x1.e848p+19 |} in
@@ -210,23 +251,28 @@ Example C18_alt_fed_to_datum_witness :
   let g0 := {| plon := 139; plat := 0x1.17fffffffc906p+05; palt := 0 |} in
   check_back p g = false /\ check_back p0 g0 = true /\ fclose 0x1.fc49493304376p+21 0x1.fc4949270b2dep+21 tol_m = false.
 Proof. exact alt_fed_to_datum_witness. Qed.
+Print Assumptions C18_alt_fed_to_datum_witness.
 Example C18_domain_nonvacuous : - (PI / 2) < rad 35 < PI / 2 /\ -90 < 35 < 90.
 Proof. exact domain_nonvacuous. Qed.
+Print Assumptions C18_domain_nonvacuous.
 Example C18_wrapper_nonvacuous :
   let tr := fun (_ _ : Z) (a b c : float) => Some ((a + a)%float, (b + 1)%float, 0%float) in
   let l := [ {| plon := 1; plat := 2; palt := 3 |}; {| plon := 1; plat := 2; palt := 4 |} ] in
   to_projected epsg_known tr l 3857 = ([ {| px := 2; py := 3; pz := 3 |}; {| px := 2; py := 3; pz := 4 |} ], None) /\
   to_projected epsg_known tr l 3395 = ([], Some EValueConvert).
 Proof. exact to_projected_nonvacuous. Qed.
+Print Assumptions C18_wrapper_nonvacuous.
 Example C18_backward_nonvacuous :
   let tr := fun (_ _ : Z) (a b c : float) => Some (a, b, 0%float) in
   to_geographic epsg_known tr [ {| px := 10; py := 20; pz := 0x1.b2fffffffffffp+8 |}; {| px := 10; py := 86; pz := 7 |} ] 3857
   = ([ {| plon := 10; plat := 20; palt := 0x1.b2fffffffffffp+8 |} ], Some EValueConvert).
 Proof. exact to_geographic_nonvacuous. Qed.
+Print Assumptions C18_backward_nonvacuous.
 Example C18_checkers_nonvacuous :
   check_x 0x1.d8360270c693ep+23 139 = true /\ check_x 0x1.fc4949270b2dep+21 139 = false /\
   lon_close (-0x1.67ffffffffffep+07) 180 = true /\ lon_close 179 180 = false.
 Proof. exact checkers_nonvacuous. Qed.
+Print Assumptions C18_checkers_nonvacuous.
 
 (* ---- tie to the source by regeneration (DESIGN.md 4.2): the CRS codes of common/consts read from /repo's current source ---- *)
 From SIDGen Require Generated.
